@@ -2361,6 +2361,8 @@ class HelicalLattice(Lattice):
         N_unit_cells = int(hdf5_loader.get_attr(h5gr, 'N_unit_cells'))
         obj = cls(regular_lattice, N_unit_cells)
         hdf5_loader.memorize_load(h5gr, obj)
+        if 'position_disorder' in h5gr:  # not derived in __init__
+            obj.position_disorder = hdf5_loader.load(subpath + 'position_disorder')
         return obj
 
     def ordering(self, order):
